@@ -16,7 +16,7 @@ place() {
     C15-h) cp $S/demo_test.go lazyproto/seed_c15_demo_test.go; echo ./lazyproto/;;
     C16-h|C17-h) cp $S/demo_test.go cmd/protoc-gen-fastmarshal/seed_demo_test.go; mkdir -p SEED; echo ./cmd/protoc-gen-fastmarshal/;;
     C07-e) cp -r $S SEED; rm -f SEED/patch.diff SEED/meta.json; mv SEED/demo_test.go cmd/protoc-gen-fastmarshal/seed_c07_demo_test.go; echo ./cmd/protoc-gen-fastmarshal/;;
-    *-c|*-d|*-e|*-f|*-g|*-h) cp -r $S SEED; rm -f SEED/patch.diff SEED/meta.json; echo SEEDDIR;;
+    *-c|*-d|*-e|*-f|*-g|*-h|*-i) cp -r $S SEED; rm -f SEED/patch.diff SEED/meta.json; echo SEEDDIR;;
     *) case "$pkgline" in
          csproto_test) cp $S/demo_test.go ./zz_seed_demo_test.go; echo .;;
          lazyproto_test) cp $S/demo_test.go lazyproto/zz_seed_demo_test.go; echo ./lazyproto/;;
